@@ -52,7 +52,7 @@ var c12Positions = []struct {
 }
 
 func init() {
-	floor := []string{"item.async", "item.async-union", "item.async-cte", "item.async-multidim", "item.once-multidim", "item.async-derived", "item.cte-dual-star", "item.fuse-dual-star", "item.fuse", "item.fuse-alias", "item.setvar", "item.async-derived-object", "item.async-derived-value", "item.agg-all-null", "item.option-flip", "item.mix-object", "item.async-join-operand", "item.cte-by-name", "item.fuse-async", "item.marker", "item.await-marker", "reexec.after-fault", "group.mixed-keys", "join.limit", "rich", "parjoin"}
+	floor := []string{"item.async", "item.async-union", "item.async-cte", "item.async-multidim", "item.once-multidim", "item.async-derived", "item.cte-dual-star", "item.fuse-dual-star", "item.fuse", "item.fuse-alias", "item.setvar", "item.async-derived-object", "item.async-derived-value", "item.agg-all-null", "item.option-flip", "item.mix-object", "item.async-join-operand", "item.cte-by-name", "item.fuse-async", "item.marker", "item.await-marker", "reexec.after-fault", "group.mixed-keys", "join.limit", "rich", "parjoin", "follow-up.whole-rows"}
 	for _, f := range c12Forms {
 		floor = append(floor, "form."+f.name)
 	}
@@ -88,7 +88,8 @@ func init() {
 
 func c12Judge(c *fw.Case, d *richDoc, sql string, multiset bool, feats []string, opts func() []genql.QueryOption) {
 	armFault(0, faultNone)
-	o := Run(d.fresh(), sql, opts()...)
+	used := d.fresh()
+	o := Run(used, sql, opts()...)
 	waitBackground()
 	n0 := faultCount()
 	c.Sample(map[string]any{"sql": sql, "outcome": short(fmt.Sprint(o.Describe()), 200)})
@@ -112,6 +113,18 @@ func c12Judge(c *fw.Case, d *richDoc, sql string, multiset bool, feats []string,
 	if err := val.JSONRoundTrip(o.Rows); err != nil {
 		c.Violate("json", fmt.Sprintf("the result does not survive an encoding/json round trip: %v", err), det)
 		return
+	}
+	// whole rows of the document the query has just read, shown by a later
+	// query: what the first one may have left in them would surface here
+	if _, ok := used["t1"]; ok && c.Chance(0.5) {
+		fu := Run(used, gen.Pick(c.R, []string{"SELECT * FROM t1 u", "SELECT u AS whole FROM t1 u", "SELECT s1, * FROM t1 GROUP BY s1"}))
+		waitBackground()
+		if probs := val.PlainWalk(fu.Rows, "<-"); fu.OK() && len(probs) > 0 {
+			det["problems"], det["follow_up"] = probs, fu.Describe()
+			c.Violate("not-plain", fmt.Sprintf("a later query that shows whole rows of the same document is not plain data: %s", strings.Join(probs, "; ")), det)
+			return
+		}
+		c.Feature("follow-up.whole-rows")
 	}
 	R := pick(c.Tier, 2, 5)
 	for rep := 0; rep < R; rep++ {
@@ -281,7 +294,10 @@ func c12Matrix(c *fw.Case) {
 		case 14:
 			sql, feat = "SELECT q AS item, VFAIL(q.rid) AS c FROM (SELECT rid, ASYNC.VBG(n1) AS y, AWAIT(ASYNC.VBG(s1)) AS z FROM t1 WHERE n1 >= 0) q", "item.async-derived-object"
 		case 10:
-			sql, feat = "WITH c AS (SELECT rid FROM t1) SELECT * FROM dual", "item.cte-dual-star"
+			// the star over the scope: neither a CTE that nobody has read nor one that has been read is a column
+			sql, feat = gen.Pick(c.R, []string{"WITH c AS (SELECT rid FROM t1) SELECT * FROM dual", "WITH o AS (SELECT rid FROM t1) SELECT *, (SELECT COUNT(*) AS c FROM o) AS n FROM dual",
+				"WITH o AS (SELECT rid FROM t1) SELECT (SELECT COUNT(*) AS c FROM o) AS n, * FROM dual", "SELECT q.x FROM (WITH c AS (SELECT rid FROM t1) SELECT *, 1 AS x FROM dual) q",
+				"WITH c AS (SELECT rid FROM t1), d AS (SELECT * FROM dual) SELECT * FROM d"}), "item.cte-dual-star"
 		case 11:
 			sql, feat = "SELECT rid, FUSE((SELECT * FROM dual)) FROM t1", "item.fuse-dual-star"
 		case 8:
